@@ -1,4 +1,5 @@
 import P2sh.Core.Prog
+import P2sh.Core.Fn.Prog
 /-!
 # C07 — statements leave the operand stack balanced (core fragment)
 
@@ -57,5 +58,59 @@ theorem expression_pushes_one (e : CExpr) (C : List Instr) (K : List Val) (pos k
     (h : codeAt C pos (compile pos k e)) (hp : poolAt K k (consts e)) (he : eval g e = some (v, g')) :
     ∃ st', Steps C K ⟨pos, stk, g⟩ st' ∧ st'.stk.length = stk.length + 1 :=
   ⟨_, compile_correct e C K pos k stk g v g' h hp he, by simp⟩
+
+
+/-! ## calls (`P2sh.Core.Fn`: first-order functions)
+
+A call leaves exactly one value in place of the callee and the arguments — also when the callee
+returns by `return` from inside nested loops and blocks (its whole activation, operands
+included, is dropped: `sp = bp - 1`, then the value is pushed) — and the frame stack is as
+before; a call statement (`f(a1, …, an);`) leaves the stack as it was. -/
+
+section calls
+open P2sh.Core.Fn
+
+/-- **a call expression pushes exactly one value**: for every terminating call (any callee body:
+loops, blocks, `return` at any nesting, recursion), with any operands `ops` underneath, in any
+activation: afterwards the machine is after the `Call`, the stack is one higher than before the
+callee expression was evaluated, the frame stack is the caller's again -/
+theorem call_pushes_one {Φ : FnDef → Option FDecl} {K : List Val} {F : FnDef → Option (List Instr)} (hL : Linked Φ K F)
+    (fuel : Nat) (l : Nat) (f : FExpr) (args : FArgs) (X : Ctxt) (pos k : Nat) (ops : List Val) (cx : Option FnDef) (σ σ' : Sto) (v : Val)
+    (h : codeAt X.code pos (compileE pos k (.call l f args))) (hp : poolAt K k (constsE (.call l f args))) (hx : Agree cx X)
+    (he : evalE Φ fuel cx σ (.call l f args) = some (v, σ')) :
+    ∃ st', FSteps K F (X.st pos ops σ) st' ∧
+      st'.act.pc = pos + bytes (compileE pos k (.call l f args)) ∧
+      st'.stk.length = (X.st pos ops σ).stk.length + 1 ∧ st'.stk.head? = some v ∧
+      st'.callers = X.callers ∧ st'.act.bp = X.base.length := by
+  obtain ⟨hs, hl⟩ := call_correct hL fuel l f args X pos k ops cx σ σ' v h hp hx he
+  refine ⟨_, hs, rfl, ?_, rfl, rfl, rfl⟩
+  simp [Ctxt.st, Ctxt.at, hl]
+
+/-- **a call statement leaves the stack as it was** -/
+theorem call_statement_balanced {Φ : FnDef → Option FDecl} {K : List Val} {F : FnDef → Option (List Instr)} (hL : Linked Φ K F)
+    (fuel : Nat) (ls l : Nat) (f : FExpr) (args : FArgs) (X : Ctxt) (pos k : Nat) (ctx : List LoopCtx) (ops : List Val) (cx : Option FnDef)
+    (σ σ' : Sto) (bv : Val)
+    (h : codeAt X.code pos (compileS pos k ctx (.expr ls (.call l f args)))) (hp : poolAt K k (constsS (.expr ls (.call l f args))))
+    (hx : Agree cx X) (he : evalS Φ fuel cx σ (.expr ls (.call l f args)) = some (σ', .normal, bv)) :
+    ∃ st', FSteps K F (X.st pos ops σ) st' ∧
+      st'.act.pc = pos + bytes (compileS pos k ctx (.expr ls (.call l f args))) ∧
+      st'.stk.length = (X.st pos ops σ).stk.length ∧ st'.callers = X.callers := by
+  have hs := (sound_all hL fuel).S _ X pos k ctx ops cx σ σ' .normal bv h hp hx he
+  have hl := (pres_all fuel).S _ _ _ _ _ _ he
+  refine ⟨_, hs, rfl, ?_, rfl⟩
+  simp [exitS, Ctxt.st, Ctxt.at, hl]
+
+/-- every statement of a function body or of the top level, calls inside included, is balanced:
+ending normally or by `break` / `continue` it leaves the operands `ops` it started with on the
+local slots; ending by `return` it leaves the caller with exactly the returned value in place of
+the callee slot -/
+theorem statement_balanced_fn {Φ : FnDef → Option FDecl} {K : List Val} {F : FnDef → Option (List Instr)} (hL : Linked Φ K F)
+    (fuel : Nat) (s : FStmt) (X : Ctxt) (pos k : Nat) (ctx : List LoopCtx) (ops : List Val) (cx : Option FnDef) (σ σ' : Sto) (f : FFlow) (bv : Val)
+    (h : codeAt X.code pos (compileS pos k ctx s)) (hp : poolAt K k (constsS s)) (hx : Agree cx X)
+    (he : evalS Φ fuel cx σ s = some (σ', f, bv)) :
+    FSteps K F (X.st pos ops σ) (exitS X ctx (pos + bytes (compileS pos k ctx s)) ops σ' f) :=
+  (sound_all hL fuel).S s X pos k ctx ops cx σ σ' f bv h hp hx he
+
+end calls
 
 end P2sh.Props.C07
